@@ -9,6 +9,7 @@ import RtcModel.Lemmas.SctpPr
 import RtcModel.Lemmas.SctpDcepRun
 
 import RtcModel.SctpSend
+import RtcModel.Lemmas.SctpPrE2E
 namespace RtcModel.Theorems.C12
 open RtcModel.Sctp RtcModel.Generated
 
@@ -340,6 +341,96 @@ theorem close_ops_are_steps (e : Ep) (hall : ∀ x ∈ e.rx.pl.chans, CloseInv x
 
 example : closes (([CloseStep.cdcBegin, .cdcBegin, .guard, .cdcEnd, .pcClose, .cdcEnd].foldl closeStep
     { id := 1, ordered := true, state := 1, events := [.open_] })) = 1 := by decide
+
+/-! ### partial reliability end to end: any arrival history, any FORWARD-TSNs -/
+
+/-- **tsn_layer_with_forward_tsn**: the TSN layer under histories that mix DATA arrivals (lost,
+duplicated, reordered, delayed — any list of stream indices) with FORWARD-TSN chunks (any new
+cumulative TSN inside the stream, any stream/SSN pairs, at any moment): the payload layer has been
+fed exactly the first `k` chunks of the stream, in order, each once — either *processed* or
+*skipped* (`procA`: a skip forgets every reassembly buffer and advances the named streams; this is
+where `forward_tsn_clears_reassembly` enters the TSN-layer statement) — and a chunk is never
+processed after it was skipped. -/
+theorem tsn_layer_with_forward_tsn (chunks : List DChunk) (tsn0 : UInt32)
+    (hts : ∀ i (h : i < chunks.length), chunks[i].tsn = tsn0 + UInt32.ofNat i)
+    (hlen : chunks.length < 2147483648) (s0 : Rx) (hcum : s0.cum = tsn0 - 1) (hrq : s0.rq = [])
+    (hist : List (Arrv chunks.length)) :
+    ∃ (act : SkipAct) (k : Nat), k ≤ chunks.length ∧ (∀ i, k ≤ i → act i = none) ∧
+      (hist.foldl (arrvStep procPayload chunks tsn0) s0).pl = plRun (procA procPayload act tsn0) s0.pl (chunks.take k) ∧
+      (hist.foldl (arrvStep procPayload chunks tsn0) s0).cum = tsn0 + UInt32.ofNat k - 1 := by
+  have inv0 : Inv (procA procPayload (fun _ => none) tsn0) chunks tsn0 s0.pl 0 s0 :=
+    ⟨Nat.zero_le _, by rw [hcum, u32_add_zero], rfl, by intro e he; rw [hrq] at he; cases he⟩
+  obtain ⟨act, k, _, hact, inv⟩ := arrv_fold procPayload chunks tsn0 s0.pl hts hlen
+    (fun pl c _ => procPayload_ok pl c) hist (fun _ => none) 0 s0 (fun _ _ => rfl) inv0
+  exact ⟨act, k, inv.hk, hact, inv.pl, inv.cum⟩
+
+/-- **pr_no_fabrication_any_history** (composition; no correspondence step in between): an
+unordered partially reliable channel, any workload fragmented as `send_data_raw` does, TSNs from
+`tsn0`; at the receiver *any* arrival history of those chunks interleaved with *any* FORWARD-TSNs.
+The channel's new events are messages of the workload, each at most once, in submission order
+(`delivered` is a sublist of `msgs`): nothing merged, split, truncated, fabricated or duplicated,
+whatever was lost, skipped, reordered or retransmitted. -/
+theorem pr_no_fabrication_any_history (sid : UInt16) (ppid : UInt32) (hp : ppid.toNat ≠ dcPpidDcep)
+    (msgs : List Bytes) (cs : List TxChan) (tc : TxChan) (tsn0 : UInt32) (s0 : Rx) (dc : Chan)
+    (hf : findTx cs sid = some tc) (ho : tc.ordered = false) (hmp : 0 < tc.maxPayload)
+    (hfind : findChan s0.pl.chans sid = some dc) (hord : dc.ordered = false) (hst : dc.state = 1)
+    (hstream : (getStream s0.pl.streams sid).pending = [])
+    (hcum : s0.cum = tsn0 - 1) (hrq : s0.rq = [])
+    (hlen : (assignTsn tsn0 (sendAll cs sid ppid msgs).2).length < 2147483648)
+    (hist : List (Arrv (assignTsn tsn0 (sendAll cs sid ppid msgs).2).length)) :
+    ∃ dc' delivered,
+      findChan (hist.foldl (arrvStep procPayload (assignTsn tsn0 (sendAll cs sid ppid msgs).2) tsn0) s0).pl.chans sid = some dc' ∧
+      dc'.events = dc.events ++ delivered.map ChanEv.msg ∧ List.Sublist delivered msgs := by
+  generalize hch : assignTsn tsn0 (sendAll cs sid ppid msgs).2 = chunks at hlen hist
+  have hts : ∀ i (h : i < chunks.length), chunks[i].tsn = tsn0 + UInt32.ofNat i := by
+    intro i h; subst hch; exact assignTsn_tsn _ _ i h
+  have hsid : ∀ c ∈ chunks, c.sid = sid := by
+    subst hch; exact assignTsn_sid _ _ sid (sendAll_sid sid ppid msgs cs)
+  have hppid : ∀ c ∈ chunks, c.ppid.toNat ≠ dcPpidDcep := by
+    subst hch
+    intro c hc
+    have : c.ppid = ppid := assignTsn_ppid _ _ ppid (sendAll_ppid sid ppid msgs cs) c hc
+    rw [this]; exact hp
+  obtain ⟨act, k, hk, _, hpl, _⟩ := tsn_layer_with_forward_tsn chunks tsn0 hts hlen s0 hcum hrq hist
+  -- the full payload processor is the data processor on these chunks
+  have hproc : plRun (procA procPayload act tsn0) s0.pl (chunks.take k) = plRun (procA procDataP act tsn0) s0.pl (chunks.take k) := by
+    apply plRun_congr
+    intro c hc pl
+    have hcm : c ∈ chunks := List.mem_of_mem_take hc
+    simp only [procA, procPayload_data pl c (hppid c hcm)]
+  -- channel `sid` as the payload-layer run with plain skips shows it
+  have hidx : ∀ x (h : x < (chunks.take k).length), ((chunks.take k)[x].tsn - tsn0).toNat = 0 + x := by
+    intro x h
+    have hx : x < chunks.length := by simp only [List.length_take] at h; omega
+    rw [List.getElem_take, hts x hx, idx_of_tsn tsn0 x (by omega)]; omega
+  have hb := bridge act tsn0 sid (chunks.take k) 0 s0.pl s0.pl rfl
+    (fun d hd => by rw [hfind] at hd; cases hd; exact hord) hstream
+    (fun c hc => hsid c (List.mem_of_mem_take hc)) hidx
+  -- extend the keep function by "skipped" beyond k and use the payload-layer theorem on the whole stream
+  let keep' : Nat → Bool := fun i => decide (i < k) && keepOf act i
+  have hcongr : procKeep keep' 0 s0.pl (chunks.take k) = procKeep (keepOf act) 0 s0.pl (chunks.take k) := by
+    apply procKeep_congr
+    intro x hx
+    have : x < k := by simp only [List.length_take] at hx; omega
+    simp [keep', this]
+  have hsplit : procKeep keep' 0 s0.pl chunks = procKeep keep' (0 + (chunks.take k).length) (procKeep keep' 0 s0.pl (chunks.take k)) (chunks.drop k) := by
+    rw [← procKeep_append, List.take_append_drop]
+  have htail := procKeep_allskip keep' sid (chunks.drop k) (0 + (chunks.take k).length) (procKeep keep' 0 s0.pl (chunks.take k))
+    (fun x => by
+      have hl : (chunks.take k).length = k := by simp only [List.length_take]; omega
+      have : decide (0 + (chunks.take k).length + x < k) = false := by rw [hl]; simp
+      simp only [keep', this, Bool.false_and])
+  obtain ⟨dc2, h2a, h2b⟩ := pr_workload keep' sid ppid hp msgs cs tc s0.pl dc tsn0 0 hf ho hmp hfind hst
+  rw [hch] at h2a
+  -- assemble
+  have hev : (findChan (hist.foldl (arrvStep procPayload chunks tsn0) s0).pl.chans sid).map (·.events) = some dc2.events := by
+    rw [hpl, hproc, hb, ← hcongr, ← htail, ← hsplit, h2a]; rfl
+  cases hfin : findChan (hist.foldl (arrvStep procPayload chunks tsn0) s0).pl.chans sid with
+  | none => rw [hfin] at hev; cases hev
+  | some dc' =>
+    rw [hfin] at hev
+    simp only [Option.map_some, Option.some.injEq] at hev
+    exact ⟨dc', _, rfl, by rw [hev, h2b], deliveredSpec_sublist _ keep' msgs 0⟩
 
 /-! ### the sending side of partial reliability -/
 
